@@ -137,6 +137,20 @@ var surnames = map[surnamesKey]*gedcom.StringSet{}
 // one to collect all the surnames.
 var surnamesMutex sync.Mutex
 
+// forgetSurnames drops what was remembered about a document. The document may
+// have changed since it was published last: individuals were added or removed,
+// somebody died, or MaxLivingAge makes other individuals living.
+func forgetSurnames(document *gedcom.Document) {
+	surnamesMutex.Lock()
+	defer surnamesMutex.Unlock()
+
+	for key := range surnames {
+		if key.document == document {
+			delete(surnames, key)
+		}
+	}
+}
+
 func getSurnames(document *gedcom.Document, visibility LivingVisibility) *gedcom.StringSet {
 	surnamesMutex.Lock()
 	defer surnamesMutex.Unlock()
